@@ -3,26 +3,39 @@
 
   Statements + final proofs.  Models: Model/Scalars.lean (`ScalarData`, both annotation generators,
   `generate_scalar_imports`), Model/ResultAnn.lean (result annotations over response shapes),
-  Model/InputFields.lean (input-class annotations), Model/Arguments.lean (`_get_dict_value`),
+  Model/ResultUnion.lean (result annotations over shapes WITH ABSTRACT POSITIONS: `Union[...]` of member classes,
+  `annotate_nested_unions` and the field-level discriminator modelled on annotation syntax; the scalar imports of a
+  result module), Model/InputFields.lean (input-class annotations), Model/Arguments.lean (`_get_dict_value`,
+  `_used_custom_scalars`), Model/ClientImports.lean (the scalar imports of client.py),
   Model/ArgSend.lean (the emitted method), Model/ArgValues.lean (`serCalls`: the calls a value is
   entitled to), Model/InputImports.lean (the scalar imports of the `input_types.py` module for every
-  `include_all_inputs` / `types_to_include`, over C09's class filter `Prune.filterInputDefs`).  Reference semantics of pydantic WITH CALL LOGS: Spec/PydLog.lean (modelled, validated
-  against the real library with instrumented parse/serialize functions, not verified).
+  `include_all_inputs` / `types_to_include`, over C09's class filter `Prune.filterInputDefs`).  Reference semantics of
+  pydantic WITH CALL LOGS: Spec/PydLog.lean, and Spec/PydUnionLog.lean for tagged / plain unions of model classes
+  (modelled, validated against the real library with instrumented parse/serialize functions, not verified).
 
   Reading decision (DESIGN.md §3.0): "once per occurrence" counts calls per non-null leaf of the
-  VALUE, not per annotation.
+  VALUE, not per annotation (at an abstract position: per leaf of the member the object belongs to, not per member class).
 
   The property is FALSE as written for top-level arguments (`C07_full_false`):
     C07-F1 `trigSerializeNullable`  `variables = {"d": serialize(d)}` is unconditional → called with None / UNSET
     C07-F2 `trigSerializeList`      a list-typed top-level variable gets ONE `serialize(list)`
     C07-F3 `trigImportKeyDotted`    deprecated `import` key + dotted name → `from m import a.b.C` (not Python)
-  Outside the triggers it is proved (`C07_partial`); the result side (`parse_once`) and input-model
-  fields (`serialize_once_fields`) hold for every wrapper nesting.
+  Outside the triggers it is proved (`C07_partial`); the result side (`parse_once`, and `parse_once_abs` over abstract
+  positions: `unions_all_discriminated`) and input-model fields (`serialize_once_fields`) hold for every wrapper nesting;
+  "every needed import is emitted" is proved module by module: `imports_cover` (one scalar), `inputs_imports_cover`
+  (input_types.py), `results_imports_cover` (result modules), `client_imports_cover` (client.py).
+
+  Not proved here (correspondence / oracle only): result classes that inherit fields from fragment classes of
+  fragments.py and the imports of fragments.py; fields with `@skip` / `@include` (default `None`); which classes and
+  `Literal` values an abstract position gets (C01's subject: the shape carries them); the composition of
+  `request_calls_present` with the whole `send`; autoflake / isort / black and the import of the emitted modules.
 -/
 import AriadneModel.Model.ResultAnn
 import AriadneModel.Model.InputImports
 import AriadneModel.Proofs.ArgCalls
 import AriadneModel.Proofs.Prune
+import AriadneModel.Proofs.C07Union
+import AriadneModel.Proofs.C07Client
 import AriadneModel.Properties.C03
 
 set_option linter.unusedSimpArgs false
@@ -32,6 +45,7 @@ namespace Ariadne.C07
 open Ariadne Ariadne.Scalars Ariadne.ResultAnn Ariadne.PydLog Ariadne.ArgValues Ariadne.Coerce Ariadne.ArgSend
 open Ariadne.Arguments Ariadne.ArgFindings Ariadne.ArgProofs
 open Ariadne.BaseClient (PV)
+open Ariadne.ResultUnion Ariadne.PydUnionLog Ariadne.C07Union
 
 /-! ## 1. Results: `parse` exactly once per non-null occurrence, never on null -/
 
@@ -142,6 +156,66 @@ end
 theorem parse_never_null (accept : Leaf → J → Bool) (cfg : ScalarCfg) (t : RT) (j : J) (h : conforms t j = true) :
     ∀ c ∈ (validateLog accept (annOfR cfg t) j).calls, c.raw.isNull = false := by
   rw [parse_once accept cfg t j h]; exact occurrences_non_null cfg t j
+
+/-! ## 1b. Results over ABSTRACT positions: unions of member classes, under any nesting of Optional / List
+
+  An interface / union field resolved with inline fragments (or fragments on subtypes) becomes
+  `Union["…A", "…B", …]` of classes that each declare the fields selected on the interface level - a custom
+  scalar selected there stands in EVERY member class.  pydantic validates a plain union of model classes by
+  trying every member (Spec/PydUnionLog.lean), which would call `parse` once per member; with
+  `Field(discriminator="typename__")` only the member named by `__typename` is validated.  Whether `parse` is
+  called once therefore depends on WHERE the generator puts the discriminator: `annotate_nested_unions`
+  (walks the slice through every wrapper) and the field-level keyword (a union at the top).
+  Model/ResultUnion.lean models that pipeline on annotation syntax; the theorems below hold for every shape. -/
+
+/-- `unions_all_discriminated`: for every shape - any nesting of `Optional[…]` / `List[…]` above an abstract
+    position, abstract positions inside member classes, … - the generator's pipeline (`rawAnn`, then
+    `annotate_nested_unions` on the slice, then the field-level discriminator) emits the annotation in which EVERY
+    union is a tagged union, and no plain `Union[…]` is left anywhere (at any depth, member classes included). -/
+theorem unions_all_discriminated (cfg : ScalarCfg) (t : RTU) :
+    annField cfg t = finalAnn cfg t ∧ hasPlainUnion (annField cfg t) = false := by
+  have h : annField cfg t = finalAnn cfg t := top_final cfg t
+  exact ⟨h, by rw [h]; exact final_no_plain_union cfg t⟩
+
+/-- the walk alone (a slice: what stands below the outer wrapper of a field) -/
+theorem nested_walk_discriminates (cfg : ScalarCfg) (t : RTU) :
+    annotateNested (rawAnn cfg t) = finalAnn cfg t := nested_final cfg t
+
+/-- `parse_once_abs`: for every response shape WITH abstract positions and every conformant value, validation of
+    the emitted annotation calls `parse` on exactly the non-null custom-scalar occurrences of the member each object
+    belongs to, each once, in order - never once per member class. -/
+theorem parse_once_abs (accept : Leaf → J → Bool) (cfg : ScalarCfg) (t : RTU) (j : J) (h : conformsU t j = true) :
+    (validateU accept (annField cfg t) j).calls = occurrencesU cfg t j := by
+  rw [(unions_all_discriminated cfg t).1]
+  exact parse_once_final accept cfg t j h
+
+/-- … and never on null -/
+theorem parse_never_null_abs (accept : Leaf → J → Bool) (cfg : ScalarCfg) (t : RTU) (j : J) (h : conformsU t j = true) :
+    ∀ c ∈ (validateU accept (annField cfg t) j).calls, c.raw.isNull = false := by
+  rw [parse_once_abs accept cfg t j h]; exact occurrencesU_non_null cfg t j
+
+/-- shapes without abstract positions (section 1) are the special case `ofRT`: same conformant values, same
+    occurrences; so `parse_once_abs` restates `parse_once` there -/
+theorem abs_extends_plain (cfg : ScalarCfg) (t : RT) (j : J) :
+    conformsU (ofRT t) j = conforms t j ∧ occurrencesU cfg (ofRT t) j = occurrences cfg t j :=
+  ⟨conformsU_ofRT t j, occurrencesU_ofRT cfg t j⟩
+
+/-- non-vacuity: `animals: [Animal]!` (nullable items) with `stamp: ScA!` selected on the interface and
+    `... on Cat { c }`; a conformant value with a `Cat`, a null and a `Bird` -/
+def exAnimal : Flds := .cons "__typename" (.tag ["Animal", "Bird"]) (.cons "stamp" (.custom "ScA" true) .nil)
+def exCat : Flds := .cons "__typename" (.tag ["Cat"]) (.cons "stamp" (.custom "ScA" true) (.cons "c" (.custom "ScA" false) .nil))
+def exAnimals : RTU := .list (.abs (.cons exAnimal (.cons exCat .nil)) false) true
+def exAnimalsValue : J := .arr [.obj [("__typename", .str "Cat"), ("stamp", .str "t1"), ("c", .null)], .null,
+  .obj [("__typename", .str "Bird"), ("stamp", .str "t2")]]
+example : conformsU exAnimals exAnimalsValue = true := by decide
+example : (occurrencesU [("ScA", C03.scaData)] exAnimals exAnimalsValue).length = 2 := by decide
+example : ((validateU (fun _ _ => true) (annField [("ScA", C03.scaData)] exAnimals) exAnimalsValue).calls.map (·.fn)) =
+    ((occurrencesU [("ScA", C03.scaData)] exAnimals exAnimalsValue).map (·.fn)) := by decide
+
+/-- why the discriminator matters: on the annotation BEFORE the walk (what a walk that stops at `Optional` would
+    leave inside the list) the same value makes pydantic call `parse` once per member class: 4 calls for 2 occurrences -/
+theorem plain_union_overcalls :
+    (validateU (fun _ _ => true) (rawAnn [("ScA", C03.scaData)] exAnimals) exAnimalsValue).calls.length = 4 := by decide
 
 /-! ## 2. Input-model fields: `serialize` exactly once per set, non-None leaf, at any depth -/
 
@@ -545,6 +619,125 @@ example : (match InputImports.generate exSchema exScalars (some ["Order"]) with
     | .error _ => false) = true := by decide
 
 end InputsModule
+
+/-! ## 4c. Result modules: the scalar imports cover every custom-scalar position of the module's classes -/
+
+section ResultsModule
+
+/-- `_add_enums_scalars_fragments_imports` never fails: no `KeyError` on `custom_scalars[...]`, for every shape -/
+theorem results_imports_total (cfg : ScalarCfg) (t : RTU) : ∃ is, resultImports cfg t = .ok is :=
+  importsOfNames_total cfg _ (usedScalarsU_configured cfg t)
+
+/-- `results_imports_cover`: for every shape (abstract positions, member classes, lists at any depth) every leaf of
+    the emitted annotation, classes entered, is either a plain name (`.name py`: a built-in / enum position, or
+    `Any` for an unconfigured scalar) or `generate_result_scalar_annotation(d)` of a configured scalar `d` all of whose
+    imports are in the module, and then every name the leaf uses is bound by the module's imports (or is an undotted
+    name configured without the `import` key: a builtin such as `str`, by design). -/
+theorem results_imports_cover (cfg : ScalarCfg) (t : RTU) (is : List Import) (h : resultImports cfg t = .ok is) :
+    ∀ l ∈ leavesOf (annField cfg t),
+      (∃ py, l = .name py) ∨
+      (∃ sc d, lookupScalar cfg sc = some d ∧ l = resultLeaf d ∧ (∀ i ∈ scalarImports d, i ∈ is) ∧
+        (truthy? (some d.type_) = some d.type_ →
+          ∀ x ∈ l.uses, ∃ y ∈ d.namesToImport, objectName y = x ∧
+            (x ∈ boundNames is ∨ (hasDot y = false ∧ truthy? d.import_ = none)))) := by
+  intro l hl
+  rw [(unions_all_discriminated cfg t).1] at hl
+  rcases leaves_origin cfg t l hl with ⟨sc, hsc, d, hd, he⟩ | hp
+  · right
+    have himp : ∀ i ∈ scalarImports d, i ∈ is := importsOfNames_mem cfg _ is h sc hsc d hd
+    refine ⟨sc, d, hd, he, himp, ?_⟩
+    intro ht x hx
+    have hu : x ∈ usedNames d := by
+      subst he
+      simp only [resultLeaf] at hx
+      cases hs : d.parseName with
+      | none => simp [hs, Leaf.uses] at hx; simp [usedNames, hx]
+      | some fn =>
+        simp only [hs, Leaf.uses, List.mem_cons, List.not_mem_nil, or_false] at hx
+        rcases hx with hx | hx <;> simp [usedNames, hx, hs]
+    obtain ⟨y, hy, hyx⟩ := usedNames_from_imports d ht x hu
+    refine ⟨y, hy, hyx, ?_⟩
+    rcases imports_cover d y hy with hbd | hnd
+    · left
+      rw [← hyx]
+      simp only [boundNames, List.mem_flatten, List.mem_map] at hbd ⊢
+      obtain ⟨l', ⟨i, hi, rfl⟩, hl'⟩ := hbd
+      exact ⟨i.names, ⟨i, himp i hi, rfl⟩, hl'⟩
+    · right; exact hnd
+  · left; exact hp
+
+/-- non-vacuity: the member classes of `exAnimals` with a builtin type and a module-qualified parse function
+    (`type = "int"`, `parse = ".custom_scalars.parse_stamp"`): the import of `parse_stamp` is there -/
+example : (match resultImports [("ScA", { type_ := "int", parse := some ".custom_scalars.parse_stamp" })] exAnimals with
+    | .ok is => decide (is = [⟨".custom_scalars", ["parse_stamp"]⟩, ⟨".custom_scalars", ["parse_stamp"]⟩, ⟨".custom_scalars", ["parse_stamp"]⟩])
+    | .error _ => false) = true := by decide
+
+end ResultsModule
+
+/-! ## 4d. client.py: the scalar imports cover every operation variable of a custom-scalar type -/
+
+section ClientModule
+open Ariadne.ClientImports Ariadne.C07Client
+
+/-- the names the annotations / calls of a configured scalar use are bound by ANY import list that holds
+    `generate_scalar_imports(d)` (or are undotted names configured without the `import` key) -/
+theorem names_bound_of_imports (d : ScalarData) (is : List Import) (himp : ∀ i ∈ scalarImports d, i ∈ is)
+    (ht : truthy? (some d.type_) = some d.type_) :
+    ∀ x ∈ usedNames d, ∃ y ∈ d.namesToImport, objectName y = x ∧
+      (x ∈ boundNames is ∨ (hasDot y = false ∧ truthy? d.import_ = none)) := by
+  intro x hu
+  obtain ⟨y, hy, hyx⟩ := usedNames_from_imports d ht x hu
+  refine ⟨y, hy, hyx, ?_⟩
+  rcases imports_cover d y hy with hbd | hnd
+  · left
+    rw [← hyx]
+    simp only [boundNames, List.mem_flatten, List.mem_map] at hbd ⊢
+    obtain ⟨l', ⟨i, hi, rfl⟩, hl'⟩ := hbd
+    exact ⟨i.names, ⟨i, himp i hi, rfl⟩, hl'⟩
+  · right; exact hnd
+
+/-- non-vacuity: the documented configuration shape (dotted type, parse, serialize) -/
+example : (∀ i ∈ scalarImports C03.scaData, i ∈ scalarImports C03.scaData ++ []) ∧
+    truthy? (some C03.scaData.type_) = some C03.scaData.type_ := ⟨fun i hi => by simpa using hi, by decide⟩
+
+/-- `ClientGenerator.generate` never fails on `custom_scalars[...]`: whatever operations `add_method` saw -/
+theorem client_imports_total (env : Env) (ops : List (List VarDef)) (st' : Arguments.St)
+    (h : generateAll env ops {} = .ok st') : ∃ is, clientScalarImports env.scalars st'.usedScalars = .ok is :=
+  importsOfNames_total env.scalars _ (generateAll_configured env ops {} st' h (by intro sc hsc; cases hsc))
+
+/-- `client_imports_cover`: for every list of operations, every operation and every variable of it whose base type
+    is a configured custom scalar `d` (under any list / non-null wrappers): the parameter's annotation names
+    `d.type_name`, the `variables` dict holds `serialize(py)` exactly when `serialize` is configured, every import
+    `generate_scalar_imports(d)` makes is in the module, and every name used is bound by the module's imports (or is an
+    undotted name configured without the `import` key). -/
+theorem client_imports_cover (env : Env) (ops : List (List VarDef)) (st' : Arguments.St) (is : List Import)
+    (h : generateAll env ops {} = .ok st') (hi : clientScalarImports env.scalars st'.usedScalars = .ok is) :
+    ∀ defs ∈ ops, ∀ its, items env defs = .ok its → ∀ i ∈ its, ∀ sc, i.use = .custom sc →
+      ∃ d, lookupScalar env.scalars sc = some d ∧ baseLeaf i.arg.ann = .name d.typeName ∧
+        i.value = (match d.serializeName with | some f => .call f i.arg.py | none => .name i.arg.py) ∧
+        (∀ im ∈ scalarImports d, im ∈ is) ∧
+        (truthy? (some d.type_) = some d.type_ →
+          ∀ x ∈ usedNames d, ∃ y ∈ d.namesToImport, objectName y = x ∧
+            (x ∈ boundNames is ∨ (hasDot y = false ∧ truthy? d.import_ = none))) := by
+  intro defs hd its hits i hmem sc hu
+  obtain ⟨v, _, hv⟩ := items_mem env defs its hits i hmem
+  obtain ⟨d, hl, hb, hval⟩ := item_custom env v i sc hv hu
+  have hin : sc ∈ st'.usedScalars := generateAll_mem env ops {} st' h defs hd its hits i hmem sc hu
+  have himp : ∀ im ∈ scalarImports d, im ∈ is := importsOfNames_mem env.scalars _ is hi sc hin d hl
+  exact ⟨d, hl, hb, hval, himp, fun ht => names_bound_of_imports d is himp ht⟩
+
+/-- non-vacuity: two operations; `$when: [Stamp!]` with `type = "int"`, `serialize = ".custom_scalars.serialize_stamp"` -/
+def exStampData : ScalarData := { type_ := "int", serialize := some ".custom_scalars.serialize_stamp" }
+def exClientKind (n : String) : Option Gql.Kind := if n = "Stamp" then some Gql.Kind.scalar else none
+def exClientEnv : Env := { kind := exClientKind, scalars := [("Stamp", exStampData)] }
+example : (match generateAll exClientEnv [[], [⟨"when", .list (.nonNull (.named "Stamp"))⟩]] {} with
+    | .ok st => decide (st.usedScalars = ["Stamp"]) &&
+        (match clientScalarImports exClientEnv.scalars st.usedScalars with
+         | .ok is => decide (is = [⟨".custom_scalars", ["serialize_stamp"]⟩])
+         | .error _ => false)
+    | .error _ => false) = true := by decide
+
+end ClientModule
 
 /-! ## 5. Top-level arguments: the property as written is false -/
 
